@@ -186,6 +186,20 @@ func socketPairConns() (net.Conn, net.Conn) {
 }
 
 func sysWrite(fd int, b []byte) (int, error) { return syscall.Write(fd, b) }
+
+// sysReadAvail returns the bytes that are waiting on a descriptor right now (never blocks).
+func sysReadAvail(fd int) []byte {
+	syscall.SetNonblock(fd, true)
+	var out []byte
+	buf := make([]byte, 4096)
+	for {
+		n, err := syscall.Read(fd, buf)
+		if n <= 0 || err != nil {
+			return out
+		}
+		out = append(out, buf[:n]...)
+	}
+}
 func syscallMunmap(b []byte)                   { syscall.Munmap(b) }
 
 // mappedPaths lists the mappings of this OS process whose backing object carries the given name (shared-memory
